@@ -521,7 +521,7 @@ def generate(tier, rng):
         yield "percentile-real", dict(seed=rng.randrange(2 ** 31), nx=nx, ny=ny,
                                       dx=rng.choice([1.0, 2.5, 10.0]), dy=rng.choice([1.0, 3.0]),
                                       p=rng.uniform(0.05, 1.0),
-                                      scale=rng.choice([3.7, 0.01, 1e6, 2.0]))
+                                      scale=rng.choice([3.7, 0.01, 1e6, 2.0, 1.6e-10, 1e-14, 1e-25, 1e12]))   # incl. flux-contribution maps in SI units
 
 
 if __name__ == "__main__":
